@@ -41,3 +41,10 @@ check(
     "Trusts xarray's label-based sortby/transpose for the comparison; discrete choices are compared only when the reference conditioning analysis says they are well determined; reversal is not applied to watershed methods, as the statement allows.",
     "DESIGN.md section 5 C05",
 )
+check(
+    "C06",
+    "differential: batched call vs per-spectrum calls at every position, single-spectrum perturbation with bit-exact comparison elsewhere, and Dataset accessor vs efth accessor, over Hypothesis-generated heterogeneous datasets and the whole operation catalogue (8+ operations per dataset)",
+    "Thousands (quick) / >100k (thorough) (dataset, operation, position) comparisons; datasets have 1-3 non-spectral dims in any order with deliberately different neighbouring spectra and per-position wind/depth. Exploration.",
+    "Trusts xarray's isel for extraction; hmax excluded as the statement says; fit_jonswap/fit_gaussian are covered by the dask/independence facets only for unimodal spectra.",
+    "DESIGN.md section 5 C06",
+)
